@@ -24,7 +24,7 @@ import (
 // C05 — thread-safe and pure.
 //
 // Monitor 1 (race run): a race-instrumented build of the same harness runs G
-// goroutines over a shared input set (1600 inputs; thorough 4000: rare-branch inputs, every prefix of ten rich inputs, near-duplicate families differing in one byte, every hand-written seed) with no synchronisation between
+// goroutines over a shared input set (2600 inputs; thorough 5000: single-bit twins of short inputs, two-quote payloads, attacks padded to 64 KiB-1 MiB, rare-branch inputs, every prefix of ten rich inputs, near-duplicate families differing in one byte, every hand-written seed) with no synchronisation between
 // the start barrier and the final join (results go to goroutine-private
 // buffers), so the detector sees every unordered pair of accesses the library
 // makes. Reports are counted in the GORACE log, never taken from exit codes.
@@ -36,11 +36,19 @@ import (
 // fresh-process reference (a process whose first and only call is that input).
 
 func c05Call(op int, s string) string {
+	r, _ := c05CallRaw(op, s)
+	return r
+}
+
+// c05CallRaw also hands back the fingerprint string exactly as the library
+// returned it (no copy), so that the caller can look at it again later: a
+// result that changes after it was returned is not a function of the input.
+func c05CallRaw(op int, s string) (string, string) {
 	if op == 0 {
 		b, f := li.IsSQLi(s)
-		return fmt.Sprintf("%v:%s", b, f)
+		return fmt.Sprintf("%v:%s", b, f), f
 	}
-	return fmt.Sprintf("%v", li.IsXSS(s))
+	return fmt.Sprintf("%v", li.IsXSS(s)), ""
 }
 
 var c05OpNames = []string{"sqli", "xss"}
@@ -102,6 +110,58 @@ func c05Inputs(n int, seed uint64) []string {
 			add(string(b))
 		}
 		add(base)
+	}
+	// single-bit twins: every byte of a few short inputs with one bit flipped
+	// (bit 5 = ASCII case bit, bit 7 = what a 7-bit mask drops, then the rest).
+	// A cache or table whose key comparison is lossy in one bit gives a twin
+	// the other twin's answer, in whichever order they are first asked.
+	for bi, base := range []string{"1 and load_file(1)>0", "select pg_sleep(5)--", "<a onclick=alert(1)>", "x' or utl_inaddr.get_host_name(1)='", "<svg/onload=x href=javascript:y>"} {
+		bits := []uint{5, 7}
+		if bi < 2 {
+			bits = []uint{0, 1, 2, 3, 4, 5, 6, 7}
+		}
+		add(base)
+		for i := 0; i < len(base); i++ {
+			for _, bit := range bits {
+				b := []byte(base)
+				b[i] ^= 1 << bit
+				add(string(b))
+			}
+		}
+	}
+	// both quote kinds in one input, each quoted reading firing on its own
+	// tail: the answer must not depend on the order in which the readings
+	// happen to be tried
+	{
+		tails := []string{"or 1=1 -- ", "union select 1,2 -- ", "or 'a'='a", "or \"a\"=\"a", "; drop table t -- ", "and sleep(5) #", "or 1=1 /*", "|| 1 -- "}
+		for ti, a := range tails {
+			for tj, b := range tails {
+				if (ti+tj)%3 != 0 && ti != tj {
+					continue
+				}
+				add("x' " + a + " \" " + b)
+				add("x\" " + a + " ' " + b)
+			}
+		}
+	}
+	// large inputs (a size-dependent fast path, a parallel split, a pooled
+	// buffer that only large inputs outgrow): attacks firing in several
+	// contexts, padded to 64 KiB / 64 KiB + 1 (thorough: also 256 KiB / 1 MiB)
+	for bi, base := range []string{"' <a href=javascript:alert(1) > \" onclick=x ` onerror=y", "1' or 1=1 -- \" union select 1,2 -- ", "<script>alert(1)</script>' onload=x", "1 union select 1,2,3 --' or '1'='1"} {
+		sizes := []int{65536, 65537}
+		if n >= 5000 {
+			sizes = []int{65536, 65537, 262144, 1 << 20}
+		}
+		for si, sz := range sizes {
+			pad := []string{"abcdefghijklmnopqrstuvwxyz0123456789", "lorem ipsum dolor ", "a,b,"}[(bi+si)%3]
+			k := sz - len(base)
+			fill := strings.Repeat(pad, k/len(pad)+1)[:k]
+			if (bi+si)%2 == 0 {
+				add(fill + base)
+			} else {
+				add(base + fill)
+			}
+		}
 	}
 	r := core.NewRng(seed, "c05inputs")
 	cs, ch := gen.CorpusSQL(), gen.CorpusHTML()
@@ -173,7 +233,12 @@ func C05Work(cfgPath string) int {
 		inputs[i], _ = strconv.Unquote(q)
 	}
 	runtime.GOMAXPROCS(cfg.P)
+	type heldFp struct {
+		raw, copy string
+		i         int
+	}
 	type priv struct {
+		held   [64]heldFp
 		res    [2][]string
 		bad    []string
 		events []c05Event
@@ -199,12 +264,25 @@ func C05Work(cfgPath string) int {
 			// from here to the end of the loop: no synchronisation of any kind
 			for k := 0; k < cfg.N; k++ {
 				i := r.Intn(len(inputs))
+				if len(inputs[i]) > 32<<10 && r.Intn(8) != 0 {
+					// inputs of 64 KiB-1 MiB are drawn eight times less often
+					// (still dozens of asks each per run)
+					i = r.Intn(len(inputs))
+				}
 				op := r.Intn(2)
 				var t0, t1 int64
 				if cfg.Mode == "hist" {
 					t0 = int64(time.Since(t00))
 				}
-				res := c05Call(op, inputs[i])
+				res, raw := c05CallRaw(op, inputs[i])
+				if op == 0 && raw != "" {
+					// look again at a fingerprint returned a while ago
+					slot := k & 63
+					if h := p.held[slot]; h.raw != "" && h.raw != h.copy && len(p.bad) < 8 {
+						p.bad = append(p.bad, fmt.Sprintf("goroutine %d: the fingerprint string returned by IsSQLi(%s) read %q when returned and reads %q after later calls", g, strconv.Quote(trunc(inputs[h.i], 80)), h.copy, h.raw))
+					}
+					p.held[slot] = heldFp{raw: raw, copy: string(append([]byte(nil), raw...)), i: i}
+				}
 				if cfg.Mode == "hist" {
 					t1 = int64(time.Since(t00))
 					p.events = append(p.events, c05Event{G: g, I: i, Op: op, R: res, T0: t0, T1: t1})
@@ -217,6 +295,11 @@ func C05Work(cfgPath string) int {
 				}
 				if cfg.Gosched > 0 && r.Intn(cfg.Gosched) == 0 {
 					runtime.Gosched()
+				}
+			}
+			for _, h := range p.held {
+				if h.raw != h.copy && len(p.bad) < 8 {
+					p.bad = append(p.bad, fmt.Sprintf("goroutine %d: the fingerprint string returned by IsSQLi(%s) read %q when returned and reads %q after later calls", g, strconv.Quote(trunc(inputs[h.i], 80)), h.copy, h.raw))
 				}
 			}
 			privs[g] = p
@@ -297,7 +380,7 @@ func raceSignature(block string) string {
 func c05() *core.Check {
 	ch := &core.Check{
 		ID: "C05",
-		Rule: "race run: a race-instrumented build runs G goroutines (4/16/64) x GOMAXPROCS (2/4/16) hammering a shared input set (1600 inputs; thorough 4000: rare-branch inputs, every prefix of ten rich inputs, near-duplicate families differing in one byte, every hand-written seed) with IsSQLi and IsXSS mixed, random Gosched, and no synchronisation between start barrier and final join; report blocks are counted in the GORACE log and de-duplicated by outermost library frames. " +
+		Rule: "race run: a race-instrumented build runs G goroutines (4/16/64) x GOMAXPROCS (2/4/16) hammering a shared input set (2600 inputs; thorough 5000: single-bit twins of short inputs, two-quote payloads, attacks padded to 64 KiB-1 MiB, rare-branch inputs, every prefix of ten rich inputs, near-duplicate families differing in one byte, every hand-written seed) with IsSQLi and IsXSS mixed, random Gosched, and no synchronisation between start barrier and final join; report blocks are counted in the GORACE log and de-duplicated by outermost library frames. " +
 			"history run: permuted / interleaved call histories in fresh child processes with per-goroutine event logs; offline checker: one result per (operation,input) across all histories, goroutines and repetitions, equal to the fresh-process reference (process whose only call is that input); the shared tables are digested before and after every history / race run (quiescent points) and must be unchanged. " +
 			"Non-trivial = distinct (operation,input) pairs asked under at least two different predecessors or concurrently; evaluations = library calls made.",
 		Assumptions: []string{
@@ -341,9 +424,9 @@ func c05Run(r *core.Run) {
 		panic("C05: race-instrumented binary missing (VERIF_RACE_BIN)")
 	}
 	thorough := r.Tier == "thorough"
-	nInputs := 1600
+	nInputs := 2600
 	if thorough {
-		nInputs = 4000
+		nInputs = 5000
 	}
 	inputs := c05Inputs(nInputs, r.Seed)
 	quoted := make([]string, len(inputs))
